@@ -963,8 +963,9 @@ class IteratorProxy(BaseProxy):
         return self._callmethod('close', args)
 
 
-@add_proxy_methods('__getattribute__')
 class NamespaceProxy(BaseProxy):
+    # Do not generate a `__getattribute__` method on this class (`add_proxy_methods`): it would
+    # intercept every attribute access of the proxy object itself, `self._callmethod` included.
     def __getattr__(self, key):
         if key[0] == '_':
             return object.__getattribute__(self, key)
